@@ -204,6 +204,12 @@ def c06(run, scratch):
         for part in ex.map(_oneline, jobs):
             trows.extend(part)
     _judge_rows(run, trows, scratch, want, 'text')
+    # acceptance in whole programs: a pseudo-branch / j / jal whose final offset is legal is accepted wherever its documented
+    # base instruction is (range edges, late-settling items in between)
+    import checks_layout
+    npairs = checks_layout.pseudo_spelling(run, scratch)
+    run.coverage['traces_validated_against_impl'] += 2 * npairs
+    run.coverage['evaluations'] += 4 * npairs
     run.coverage['distinct_nontrivial'] = len({(x[0], tuple(x[1]), tuple(x[2])) for x in rows + trows})
     run.coverage['refused_rows'] = refused + sum(1 for x in trows if x[3] == 'err')
     run.coverage['rule'] = ('all 93 mnemonics (66 base + 27 c.*): every operand field swept from well below to well above its legal '
